@@ -13,7 +13,10 @@ import (
 )
 
 // Rng is a SplitMix64 stream.
-type Rng struct{ S uint64 }
+type Rng struct {
+	S   uint64
+	big int // how many more arrays of this document may be large
+}
 
 func (r *Rng) Next() uint64 {
 	r.S += 0x9e3779b97f4a7c15
@@ -42,7 +45,8 @@ const CanonicalDoc = `{"nums":[3,1,2,2,-5,10.5],"strs":["b","a","c","a","é"],` 
 	`"s":"héllo","n":-3.5,"t":true,"z":null,"e":[],"eo":{}}`
 
 func arrLen(r *Rng) int {
-	if r.Chance(1, 40) {
+	if r.big > 0 && r.Chance(1, 3) {
+		r.big--
 		return 64 + r.Intn(340) // past the size thresholds of small-vector / big-input code paths
 	}
 	switch r.Intn(10) {
@@ -92,6 +96,10 @@ func str(r *Rng) string {
 func Doc(r *Rng) string {
 	if r.Chance(1, 8) {
 		return CanonicalDoc
+	}
+	r.big = 0
+	if r.Chance(1, 20) {
+		r.big = 1 // one document in twenty has one array of 64-400 elements
 	}
 	d := map[string]interface{}{}
 	n := arrLen(r)
